@@ -57,6 +57,9 @@ func main() {
 		if len(os.Args) < 3 {
 			usage()
 		}
+		if strings.HasPrefix(os.Args[2], "terms:") {
+			os.Exit(runDebugTerms(strings.TrimPrefix(os.Args[2], "terms:")))
+		}
 		if strings.HasPrefix(os.Args[2], "rule:") {
 			os.Exit(runDebugRule(strings.TrimPrefix(os.Args[2], "rule:")))
 		}
